@@ -1,6 +1,7 @@
 package main
 
 import (
+	"go/token"
 	"fmt"
 	"go/types"
 
@@ -16,6 +17,8 @@ type ChanV struct {
 	cap    int
 	closed bool
 	timer  bool // channel of a time.Timer / time.After: "ready" means "may fire now", not "must"
+	unbuf  bool // made with capacity 0 (modelled with one slot, see MakeChan)
+	commit int  // 1 + index of the goroutine that was parked on a receive when the value in the slot was sent: it takes it
 }
 
 // keyEq builds the equality term for two map keys (scalars or strings).
@@ -118,7 +121,7 @@ func (m *Machine) execMapOps(s *State, f *Frame, in ssa.Instruction) ([]*State, 
 			m.stubs["unbuffered channel modelled as 1-buffered (rendezvous not modelled)"]++
 			cp = 1
 		}
-		id := s.alloc(ChanV{cap: cp})
+		id := s.alloc(ChanV{cap: cp, unbuf: sz.cv == 0})
 		f.env[x] = Ptr{obj: id}
 		return nil, true
 	case *ssa.MapUpdate:
@@ -276,8 +279,47 @@ func (m *Machine) chanSend(s *State, f *Frame, in ssa.Instruction, p Ptr, v Valu
 		return false
 	}
 	ch.buf = append(append([]Value(nil), ch.buf...), v)
+	if ch.unbuf {
+		// a receiver parked on this channel is committed to this value (Go hands it over directly)
+		ch.commit = m.parkedReceiver(s, p) + 1
+	}
 	s.store(p, ch)
 	return true
+}
+
+// parkedReceiver returns the index of a goroutine (other than the current one) that is blocked on a receive from
+// channel p — a plain receive or a blocking select with a receive case on p — or -1.
+func (m *Machine) parkedReceiver(s *State, p Ptr) int {
+	for i := range s.gs {
+		if i == s.cur || s.gs[i].done {
+			continue
+		}
+		in, f := s.nextInstr(i)
+		if in == nil {
+			continue
+		}
+		switch x := in.(type) {
+		case *ssa.UnOp:
+			if x.Op == token.ARROW {
+				if q, ok := s.evalIn(f, x.X).(Ptr); ok && q.obj == p.obj {
+					return i
+				}
+			}
+		case *ssa.Select:
+			if !x.Blocking {
+				continue
+			}
+			for _, st := range x.States {
+				if st.Dir == types.SendOnly {
+					continue
+				}
+				if q, ok := s.evalIn(f, st.Chan).(Ptr); ok && q.obj == p.obj {
+					return i
+				}
+			}
+		}
+	}
+	return -1
 }
 
 func (m *Machine) chanRecv(s *State, p Ptr, et types.Type) (Value, bool, bool) { // value, ok, ready
@@ -288,6 +330,7 @@ func (m *Machine) chanRecv(s *State, p Ptr, et types.Type) (Value, bool, bool) {
 	if len(ch.buf) > 0 {
 		v := ch.buf[0]
 		ch.buf = append([]Value(nil), ch.buf[1:]...)
+		ch.commit = 0
 		s.store(p, ch)
 		return v, true, true
 	}
@@ -300,6 +343,7 @@ func (m *Machine) chanRecv(s *State, p Ptr, et types.Type) (Value, bool, bool) {
 func (m *Machine) execSelect(s *State, f *Frame, x *ssa.Select) []*State {
 	c := m.ctx
 	var ready []int
+	committed := -1
 	for i, st := range x.States {
 		p := s.get(st.Chan).(Ptr)
 		if p.obj == 0 {
@@ -308,11 +352,23 @@ func (m *Machine) execSelect(s *State, f *Frame, x *ssa.Select) []*State {
 		ch := s.load(p).(ChanV)
 		if st.Dir == types.SendOnly {
 			if ch.closed || len(ch.buf) < ch.cap {
+				// a NON-blocking send (select with default) on an unbuffered channel succeeds only when a
+				// receiver is parked on it; a blocking one may run ahead by one slot (MakeChan)
+				if ch.unbuf && !x.Blocking && !ch.closed && m.parkedReceiver(s, p) < 0 {
+					continue
+				}
 				ready = append(ready, i)
 			}
 		} else if len(ch.buf) > 0 || ch.closed {
+			if ch.unbuf && ch.commit == s.cur+1 && len(ch.buf) > 0 {
+				// this goroutine was parked here when the value was sent: the hand-off has already happened
+				committed = i
+			}
 			ready = append(ready, i)
 		}
+	}
+	if committed >= 0 {
+		ready = []int{committed}
 	}
 	build := func(st *State, chosen int) {
 		fr := st.top()
